@@ -126,6 +126,7 @@ class PathSum:
             self.enums.update(enums)
         self.closures = {}
         self._closure_refs = {}
+        self.take_while_fn = None      # def path of the library's take_while combinator, when the analysed crate has one
         self.loops = {}
         self.npaths = 0
         self.notes = []
@@ -225,7 +226,71 @@ class PathSum:
         for c in st.conds:
             if c[0] == "true" and c[1] == t:
                 return (st, None) if c[2] else (None, st)
+        d = self._int_decide(st, t)
+        if d is not None:
+            return (st, None) if d else (None, st)
         return st.with_cond(("true", t, True)), st.with_cond(("true", t, False))
+
+    def _int_decide(self, st, t):
+        """A comparison of offsets / lengths that the path already decides: identical operands, or entailed (Fourier-
+        Motzkin) by the comparisons on the path and `0 <= position < len(searched slice)`.  Only tried when a searched
+        position or a slice length is involved; prunes infeasible paths such as `pos == s.len()` after a successful
+        search."""
+        if not (t[0] == "bin" and t[1] in ("Eq", "Ne", "Lt", "Le", "Gt", "Ge")):
+            return None
+        if t[2] == t[3]:          # the very same evaluation on both sides
+            return t[1] in ("Eq", "Le", "Ge")
+        a, b = strip_sites(t[2]), strip_sites(t[3])
+        interesting = False
+        for u in subterms((a, b)):
+            if isinstance(u, tuple) and u and ((u[0] == "payload" and u[1][0] == "call" and u[1][1].endswith("::position")) or (u[0] == "call" and u[1].endswith("::len"))):
+                interesting = True
+        if not interesting:
+            return None
+        import fm
+        from linform import Lin, lin
+        facts = []
+        seen = set()
+        terms = [a, b] + [strip_sites(c[1]) for c in st.conds if c[0] == "true"]
+        for tt in terms:
+            for u in subterms(tt):
+                if not (isinstance(u, tuple) and u) or u in seen:
+                    continue
+                seen.add(u)
+                if u[0] == "payload" and u[2] == SOME and u[1][0] == "call" and u[1][1].endswith("::position") and u[1][2] and u[1][2][0][0] == "call" and u[1][2][0][1].endswith("::iter"):
+                    src = u[1][2][0][2][0]
+                    facts += [fm.ge0(lin(u)), fm.lt(lin(u), lin(("call", "core::slice::len", (src,))))]
+                if u[0] == "call" and u[1].endswith("::len") and len(u[2]) == 1:
+                    facts.append(fm.ge0(lin(u)))
+        for c in st.conds:
+            if c[0] == "true" and c[1][0] == "bin" and c[1][1] in ("Eq", "Ne", "Lt", "Le", "Gt", "Ge"):
+                x, y = lin(strip_sites(c[1][2])), lin(strip_sites(c[1][3]))
+                op, v = c[1][1], c[2]
+                if op in ("Lt", "Ge"):
+                    facts.append(fm.lt(x, y) if (op == "Lt") == v else fm.le(y, x))
+                elif op in ("Gt", "Le"):
+                    facts.append(fm.lt(y, x) if (op == "Gt") == v else fm.le(x, y))
+                elif (op == "Eq") == v:
+                    facts += fm.eq(x, y)
+        la, lb = lin(a), lin(b)
+        goals = {"Lt": [fm.lt(la, lb)], "Le": [fm.le(la, lb)], "Gt": [fm.lt(lb, la)], "Ge": [fm.le(lb, la)], "Eq": fm.eq(la, lb)}
+        neg = {"Lt": [fm.le(lb, la)], "Le": [fm.lt(lb, la)], "Gt": [fm.le(la, lb)], "Ge": [fm.lt(la, lb)]}
+        op = t[1]
+        if op == "Ne":
+            if fm.entails(facts, fm.lt(la, lb)) or fm.entails(facts, fm.lt(lb, la)):
+                return True
+            if all(fm.entails(facts, g) for g in goals["Eq"]):
+                return False
+            return None
+        if all(fm.entails(facts, g) for g in goals[op]):
+            return True
+        if op == "Eq":
+            if fm.entails(facts, fm.lt(la, lb)) or fm.entails(facts, fm.lt(lb, la)):
+                return False
+            return None
+        if all(fm.entails(facts, g) for g in neg[op]):
+            return False
+        return None
 
     # ------------------------------------------------------------------ patterns
     def match_pat(self, st, t, p):
@@ -795,7 +860,90 @@ class PathSum:
     def ev_Loop(self, e, st):
         return self._loop(e, st, lambda h: (self.ev(e["body"], h), []), False)
 
+    def _counting_scan(self, e, st):
+        """`while k < x.len() && C(x[k]) { k += 1 }` entered with k = 0 is the search for the first element of x that fails
+        C: afterwards k = x.iter().position(|b| !C(b)).unwrap_or(x.len()).  Recognised on the HIR and summarised as that
+        search (two outcomes: found / not found), so that rules which read a terminator or prefix search off `position()`
+        see an open-coded scan the same way.  -> outcomes, or None when the loop is not of this form."""
+        import copy
+        from hir import strip, walk
+        c = strip(e["cond"])
+        if c.get("k") != "Binary" or c.get("op") != "And":
+            return None
+        lt, C = strip(c["l"]), c["r"]
+        if lt.get("k") != "Binary" or lt.get("op") not in ("Lt", "Gt"):
+            return None
+        a, b = (strip(lt["l"]), strip(lt["r"])) if lt["op"] == "Lt" else (strip(lt["r"]), strip(lt["l"]))
+        if not (a.get("k") == "Path" and a["res"].get("r") == "Local" and b.get("k") == "MethodCall" and b.get("name") == "len" and not b.get("args")):
+            return None
+        X = strip(b["recv"])
+        if not (X.get("k") == "Path" and X["res"].get("r") == "Local"):
+            return None
+        kid, xid = a["res"]["id"], X["res"]["id"]
+        if st.env.get(kid) != ("lit", "int", 0):
+            return None
+        body = strip(e["body"])
+        if body.get("k") != "Block" or body.get("expr") or len(body["stmts"]) != 1 or body["stmts"][0]["k"] != "Semi":
+            return None
+        inc = strip(body["stmts"][0]["e"])
+        ok = (inc.get("k") == "AssignOp" and inc.get("op") in ("Add", "AddAssign") and strip(inc["l"]).get("k") == "Path" and strip(inc["l"])["res"].get("id") == kid
+              and strip(inc["r"]).get("k") == "Lit" and strip(inc["r"])["lit"].get("v") == 1)
+        if not ok:
+            return None
+        # C mentions k only as the index of x[k], and x is not assigned in the loop
+        if xid in self._assigned_locals(e):
+            return None
+        sid = kid + "$elem"
+        Cn = copy.deepcopy(C)
+        n_elem = [0]
+
+        def rewrite(n):
+            if isinstance(n, dict):
+                if n.get("k") == "Index":
+                    base, idx = strip(n["e"]), strip(n["i"]) if "i" in n else None
+                    if idx is not None and base.get("k") == "Path" and base["res"].get("id") == xid and idx.get("k") == "Path" and idx["res"].get("id") == kid:
+                        n_elem[0] += 1
+                        return {"k": "Path", "res": {"r": "Local", "id": sid, "name": "elem"}, "ty": "u8", "sp": n.get("sp")}
+                return {k2: rewrite(v2) for k2, v2 in n.items()}
+            if isinstance(n, list):
+                return [rewrite(v2) for v2 in n]
+            return n
+        Cn = rewrite(Cn)
+        if n_elem[0] == 0 or any(x.get("k") == "Path" and x["res"].get("id") == kid for x in walk(Cn)):
+            return None
+        guarded = []
+        for n in walk(C):
+            if n.get("k") == "Index" and strip(n["e"]).get("k") == "Path" and strip(n["e"])["res"].get("id") == xid and strip(n["i"]).get("k") == "Path" and strip(n["i"])["res"].get("id") == kid:
+                guarded.append(tuple(n.get("sp") or ()))
+        guarded.append(tuple(inc.get("sp") or ()))
+        key = loc(e) + "::{scan}"
+        self.closures[key] = {"k": "Closure", "def": key, "params": [{"k": "Bind", "id": sid, "name": "elem", "ty": "u8"}],
+                              "body": {"k": "Unary", "op": "Not", "e": Cn, "ty": "bool", "sp": e.get("sp")}}
+        site = loc(e)
+        out = []
+        for o in self.ev(X, st):
+            if o[0] != "val":
+                out.append(o)
+                continue
+            xt = o[2]
+            it = ("call", "core::slice::iter", (xt,), site)
+            pos = ("call", "<core::slice::iter::Iter<'a, T> as core::iter::traits::iterator::Iterator>::position", (it, ("closure", key)), site)
+            for found in (True, False):
+                s2 = o[1].fork()
+                # x[k] is evaluated only behind `k < x.len()`, and k + 1 <= x.len() where k is incremented
+                s2.add_effect(("idiom", "counting-scan", tuple(guarded), site))
+                s2.add_effect(("call", it[1], it[2], site))
+                s2.add_effect(("call", pos[1], pos[2], site))
+                s2 = s2.with_cond(("is", pos, SOME, found))
+                s2.env[kid] = ("payload", pos, SOME, 0) if found else ("call", "core::slice::len", (xt,), site)
+                out.append(("val", s2, UNIT))
+        return out
+
     def ev_While(self, e, st):
+        scan = self._counting_scan(e, st)
+        if scan is not None:
+            return scan
+
         def body(h):
             ts, fs, ab = self.branch(e["cond"], h)
             outs = list(ab)
@@ -942,6 +1090,29 @@ class PathSum:
             callee = callee + "::<%s>" % e["gargs"][0]
         cur, ab = self.ev_list([e["recv"]] + e["args"], st)
         out = list(ab)
+        if e["name"] == "count" and not e["args"] and self.take_while_fn:
+            # `r.iter().take_while(p).count()` is the length of what the library's own take_while(p) takes from r:
+            # evaluated as an application of that combinator (never failing, rule PR), so that scanning written with the
+            # iterator adaptor is seen by the parser rules like scanning written with the combinator
+            res = []
+            for (s, v) in cur:
+                r = v[0]
+                if (r[0] == "call" and r[1].split("::")[-1] == "take_while" and "iter" in r[1].lower() and len(r[2]) == 2 and r[2][1][0] == "closure"
+                        and r[2][0][0] == "call" and r[2][0][1].endswith("::iter") and len(r[2][0][2]) == 1):
+                    src = r[2][0][2][0]
+                    fterm = ("call", self.take_while_fn, (r[2][1],), site)
+                    app = ("apply", fterm, (src,), site)
+                    s2 = s.fork()
+                    s2.effects = tuple(x for x in s2.effects if not (x[0] == "call" and ((x[1] == r[1] and x[2] == r[2]) or (x[1] == r[2][0][1] and x[2] == r[2][0][2]))))
+                    s2.add_effect(("call", self.take_while_fn, (r[2][1],), site))
+                    s2.add_effect(("apply", fterm, (src,), site))
+                    s2 = s2.with_cond(("is", app, OK, True))
+                    res.append(("val", s2, ("call", "core::slice::len", (("tproj", ("payload", app, OK, 0), 1),), site)))
+                else:
+                    res = None
+                    break
+            if res is not None:
+                return out + res
         if e["name"] in BORROW_VIEWS and not e["args"]:
             # a borrowing view of the receiver (`v.as_slice()`, `a.as_ref()` ...) is the receiver's value, and no effect
             return out + [("val", s, v[0]) for (s, v) in cur]
